@@ -3,6 +3,11 @@ package main
 import (
 	"verif/harness/fw"
 	_ "verif/harness/props"
+	_ "verif/harness/props/c06"
+	_ "verif/harness/props/c10"
+	_ "verif/harness/props/c13"
+	_ "verif/harness/props/c14"
+	_ "verif/harness/props/c18"
 )
 
 func main() { fw.Main() }
